@@ -39,7 +39,7 @@ func v15sRun(ctx context.Context, o *vOp) {
 }
 
 // verif:desc C15-O5s a merge racing with a commit on the parent, both clients as GOROUTINES over one model object store (every storage call a preemption point, at most 1 preemption - thorough 2 - so that either client can be interrupted between its snapshot of the parent, its patch, its commit-object put and its branch update): client A merges branch child (one commit adding object 4, or deleting object 0) into main while client B loads object 3 into main or deletes object 0 from main.  Asserted through a fresh handle afterwards: the chain is the earlier history plus exactly the acknowledged commits; every acknowledged operation was valid on the tip it replaced (a merge whose delete lost against B's delete of the same object must be REFUSED, not acknowledged); contents are the one-at-a-time result; refused attempts leave no commit object and no journal entry.
-// verif:bounds main = 2 commits (add {0,1}, delete {0}) or 1 commit; child adds {4} or deletes {0}; B = load 3 or delete 0/1; atomic-put storage; preemption bound 1 (thorough: 2); natively 40 repetitions
+// verif:bounds main = 2 commits (add {0,1}, delete {0}) or 1 commit; child adds {4} or deletes {0}; B = load 3 or delete 0/1; atomic-put storage; preemption bound 1 (thorough: 2, about 80 minutes on 7 workers); natively 40 repetitions
 // verif:outside more preemptions; 3+ clients; create-then-fill storage; merges in both directions and repeated merges (C15-O1/O3, sequential)
 func VerifH_C15_O5s_merge_races_with_commit() {
 	k := 1
@@ -88,7 +88,7 @@ func VerifH_C15_O5s_merge_races_with_commit() {
 }
 
 // verif:desc C13-O9s readers are isolated from a concurrent writer, as goroutines: while client W commits a load (or a delete) on main, client R - its own handles, cold caches - reads the snapshot of the EARLIER commit c1 and of the tip it resolved when it started, twice each, under every schedule with at most 1 preemption (thorough 2) at the storage calls of either client: every read of a commit id gives that commit's contents (the same both times), whatever the writer has done in between; the tip R resolved is c1's successor state or the writer's new commit, never anything else.
-// verif:bounds main = 2 commits; writer: load 3 or delete 1; reader: 2 x (Snapshot(c1), Snapshot(resolved tip)); atomic-put storage; preemption bound 1 (thorough: 2); natively 40 repetitions
+// verif:bounds main = 2 commits; writer: load 3 or delete 1; reader: 2 x (Snapshot(c1), Snapshot(resolved tip)); atomic-put storage; preemption bound 1 (thorough: 2 = 52 291 schedules, about 45 minutes on 7 workers); natively 40 repetitions
 // verif:outside create-then-fill storage (C13-O6, incl. its known snap-truncated region); warm caches of a long-lived reader (C13-O1/O5); queries through the compiler
 func VerifH_C13_O9s_reader_isolated_from_writer() {
 	k := 1
